@@ -304,7 +304,7 @@ func c02Scenarios(tier string) []*Scenario {
 	}
 	// I4: call-option subsets x shapes
 	for mask := 0; mask < 16; mask++ {
-		for creds := 0; creds < 4; creds++ {
+		for creds := 0; creds < 5; creds++ {
 			for _, shape := range []string{"Unary", "ClientStream", "ServerStream", "Bidi"} {
 				for _, rev := range []bool{false, true} {
 					if !thorough && rev && mask%5 != 0 {
@@ -329,6 +329,13 @@ func c02Scenarios(tier string) []*Scenario {
 						c.MD, c.NoScriptKey = nil, true
 						reqMD = metadata.MD{"authorization": {"tok"}}
 						class = ":creds-without-outgoing-metadata"
+					case 4:
+						// the credentials use a key that the outgoing context (and a second value
+						// of the credentials' own) also uses: the key becomes multi-valued
+						c.MD = metadata.MD{"x": {"y"}, "authorization": {"from-ctx"}}
+						c.Creds = testCreds{map[string]string{"authorization": "from-creds"}}
+						reqMD = metadata.MD{"x": {"y"}, "authorization": {"from-ctx", "from-creds"}}
+						class = ":creds-key-collision"
 					case 3:
 						// no request metadata of any kind: the handler must see none (in
 						// particular not the metadata of the tunnel-opening call)
@@ -340,7 +347,7 @@ func c02Scenarios(tier string) []*Scenario {
 					ex := metaExpect{id: "r1", code: codes.OK, header: hmd, trailer: tmd, reqMD: reqMD, nResp: len(resp), checkHdr: true, hdrOpt: c.HeaderOpt, trlOpt: c.TrailerOpt}
 					hs := wl.Handler
 					sc := &Scenario{Name: fmt.Sprintf("c02/i4/%s/rev=%v/opts=%04b/creds=%d", shape, rev, mask, creds), Prop: "C02",
-						Desc: fmt.Sprintf("%s RPC with call options {Header:%v Trailer:%v Peer:%v WithTunnelChannel:%v} and per-RPC credentials mode %d (0 none, 1 with outgoing metadata, 2 credentials without any outgoing metadata, 3 no request metadata at all)", shape, c.HeaderOpt, c.TrailerOpt, c.PeerOpt, c.ChanOpt, creds),
+						Desc: fmt.Sprintf("%s RPC with call options {Header:%v Trailer:%v Peer:%v WithTunnelChannel:%v} and per-RPC credentials mode %d (0 none, 1 with outgoing metadata, 2 credentials without any outgoing metadata, 3 no request metadata at all, 4 credentials whose key collides with context metadata)", shape, c.HeaderOpt, c.TrailerOpt, c.PeerOpt, c.ChanOpt, creds),
 						Opt:  Options{Level: "io", Bound: 0},
 						Run: func(w *World) {
 							w.Scripts["*"] = &hs
